@@ -7,6 +7,7 @@ import (
 	"fmt"
 	"math/rand/v2"
 	"sort"
+	"strings"
 
 	"google.golang.org/protobuf/encoding/protojson"
 	"google.golang.org/protobuf/encoding/prototext"
@@ -36,13 +37,10 @@ func pairs() []msgPair {
 	return []msgPair{
 		{"fuzz2", (*fuzzpb.TestAllTypesProto2)(nil), (*fuzzpb.TestAllTypesProto2Editions)(nil)},
 		{"fuzz3", (*fuzzpb.TestAllTypesProto3)(nil), (*fuzzpb.TestAllTypesProto3Editions)(nil)},
-		{"test.TestAllTypes", (*testpb.TestAllTypes)(nil), (*testedpb.TestAllTypes)(nil)},
 		{"test.TestRequired", (*testpb.TestRequired)(nil), (*testedpb.TestRequired)(nil)},
 		{"test.TestRequiredForeign", (*testpb.TestRequiredForeign)(nil), (*testedpb.TestRequiredForeign)(nil)},
-		{"test.TestPackedTypes", (*testpb.TestPackedTypes)(nil), (*testedpb.TestPackedTypes)(nil)},
 		{"test.TestRequiredGroupFields", (*testpb.TestRequiredGroupFields)(nil), (*testedpb.TestRequiredGroupFields)(nil)},
 		{"test.TestOneofWithRequired", (*testpb.TestOneofWithRequired)(nil), (*testedpb.TestOneofWithRequired)(nil)},
-		{"test.TestManyMessageFieldsMessage", (*testpb.TestManyMessageFieldsMessage)(nil), (*testedpb.TestManyMessageFieldsMessage)(nil)},
 	}
 }
 
@@ -61,22 +59,22 @@ func canonJSON(b []byte) string {
 }
 
 // observe decodes b into a fresh message of m's type and projects everything the runtime shows about it.
-func observe(m proto.Message, b []byte) (o map[string]any) {
+func observe(m proto.Message, b []byte) (o map[string]any, x proto.Message) {
 	defer func() {
 		if x := recover(); x != nil {
 			o = map[string]any{"panic": fmt.Sprint(x)}
 		}
 	}()
-	x := m.ProtoReflect().Type().New().Interface()
+	x = m.ProtoReflect().Type().New().Interface()
 	err := proto.UnmarshalOptions{AllowPartial: false}.Unmarshal(b, x)
-	o = map[string]any{"ok": err == nil}
+	o = map[string]any{"ok": err == nil, "utf8err": err != nil && strings.Contains(err.Error(), "invalid UTF-8")}
 	if err != nil {
 		// partial decode: does it at least agree structurally?
 		x = m.ProtoReflect().Type().New().Interface()
 		err2 := proto.UnmarshalOptions{AllowPartial: true}.Unmarshal(b, x)
 		o["partial"] = err2 == nil
 		if err2 != nil {
-			return o
+			return o, nil
 		}
 	}
 	det, err := proto.MarshalOptions{Deterministic: true, AllowPartial: true}.Marshal(x)
@@ -99,7 +97,7 @@ func observe(m proto.Message, b []byte) (o map[string]any) {
 		err := prototext.UnmarshalOptions{AllowPartial: true}.Unmarshal(tx, y)
 		o["textrt"] = err == nil && proto.Equal(x, y)
 	}
-	return o
+	return o, x
 }
 
 func execPair(c core.Case, out core.Case) {
@@ -109,9 +107,28 @@ func execPair(c core.Case, out core.Case) {
 		harnessBug("pair index %d", k)
 	}
 	b := core.Bytes(c["b"])
-	out["a"] = observe(ps[k].a, b)
-	out["b"] = observe(ps[k].b, b)
+	oa, xa := observe(ps[k].a, b)
+	ob, xb := observe(ps[k].b, b)
+	out["a"], out["b"] = oa, ob
+	// content comparison across the two types: B's message re-encoded and decoded as an A message
+	cross := true
+	if xa != nil && xb != nil && oa["ok"] == true && ob["ok"] == true {
+		func() {
+			defer func() {
+				if x := recover(); x != nil {
+					out["panic"] = fmt.Sprint(x)
+				}
+			}()
+			wb, err := proto.MarshalOptions{AllowPartial: true}.Marshal(xb)
+			y := ps[k].a.ProtoReflect().Type().New().Interface()
+			cross = err == nil && proto.UnmarshalOptions{AllowPartial: true}.Unmarshal(wb, y) == nil && proto.Equal(xa, y)
+		}()
+	}
+	out["cross"] = cross
 }
+
+// strictPair: the two types are exact translations of each other (the specification checks that claim on the schemas)
+func strictPair(k int) bool { return k < 2 }
 
 // ---- schema side: the two types field by field
 
@@ -204,6 +221,9 @@ func execPairSchema(c core.Case, out core.Case) {
 	k := core.Int(c["pair"])
 	ps := pairs()
 	out["name"] = ps[k].name
+	if core.Bool(c["strict"]) != strictPair(k) {
+		harnessBug("pair %d: strictness flag", k)
+	}
 	out["a"] = ToAny(schemaOf(ps[k].a.ProtoReflect().Descriptor()))
 	out["b"] = ToAny(schemaOf(ps[k].b.ProtoReflect().Descriptor()))
 }
@@ -330,8 +350,8 @@ func genPair(r *rand.Rand, n int, emit func(core.Case)) {
 	ps := pairs()
 	for i := 0; i < n; i++ {
 		k := r.IntN(len(ps))
-		if r.IntN(3) == 0 {
-			k = r.IntN(3)
+		if r.IntN(2) == 0 {
+			k = r.IntN(2)
 		}
 		src := ps[k].a
 		if r.IntN(2) == 0 {
@@ -349,7 +369,7 @@ func genPair(r *rand.Rand, n int, emit func(core.Case)) {
 		if len(b) > 4000 {
 			b = b[:4000]
 		}
-		emit(core.Case{"op": "pair", "pair": k, "b": core.B(b)})
+		emit(core.Case{"op": "pair", "pair": k, "strict": strictPair(k), "b": core.B(b)})
 	}
 }
 
